@@ -167,20 +167,21 @@ def run_config(cfg, outdir):
                 if not (np.array_equal(a, t, equal_nan=True) and np.array_equal(b, t, equal_nan=True)):
                     ns_ok = False
         res["nonsampling_ok"] = ns_ok
-        # prime prior, when offered
-        if p._reparameterisation.has_prime_prior:
+        # prime prior, where offered (per reparameterisation: the combined one only offers it when all do)
+        offering = [rr for rr in p._reparameterisation.values() if rr.has_prime_prior]
+
+        def prime_prior(xpv):
+            tot = np.zeros(xpv.size)
+            for rr in offering:
+                tot = tot + rr.x_prime_log_prior(xpv.copy())
+            return tot
+
+        if offering:
             with np.errstate(all="ignore"):
-                res["prime_prior"] = fl(p._reparameterisation.x_prime_log_prior(xp))
-                if cfg.get("prime_probe"):
-                    probe = np.zeros(len(cfg["prime_probe"]), dtype=xp.dtype)
-                    for j, n in enumerate(p.prime_parameters):
-                        probe[n] = [row[j] for row in cfg["prime_probe"]]
-                    res["probe_prior"] = fl(p._reparameterisation.x_prime_log_prior(probe))
-                    pb, _ = p.inverse_rescale(probe)
-                    res["probe_back"] = {n: fl(pb[n]) for n in cfg["names"]}
+                res["prime_prior"] = fl(prime_prior(xp))
                 if cfg.get("outside"):
                     _, xpo, _, _, _ = one_pass(p, cfg, cfg["outside"])
-                    res["outside_prior"] = fl(p._reparameterisation.x_prime_log_prior(xpo))
+                    res["outside_prior"] = fl(prime_prior(xpo))
                     res["outside_n"] = int(len(cfg["outside"]))
         # neighbours (conditioning of the reported log-Jacobian), same oracle choices
         if cfg.get("neighbours"):
